@@ -91,8 +91,10 @@ class Registry:
 
         return deco
 
-    def axiom(self, formula, note=""):
-        self.axioms.append(formula)
+    def axiom(self, formula, note="", symbols=None):
+        """symbols: names of the uninterpreted functions the axiom is about; a quantified axiom is handed to the solver
+        only on paths where one of them occurs."""
+        self.axioms.append((formula, tuple(symbols)) if symbols else formula)
         self.axiom_notes.append(note)
 
     # ---------------------------------------------------------------- lookup
@@ -175,6 +177,8 @@ class KInt(Kind):
             c.I.ctx.assume(v >= self.lo)
         if self.hi is not None:
             c.I.ctx.assume(v <= self.hi)
+        if self.lo is not None and self.hi is not None:
+            c.I.ctx.set_range(v, self.lo, self.hi)
         return v
 
 
